@@ -745,7 +745,10 @@ def one_case(ctx, rng, idx):
             # (4) optimize leaves nothing behind
             if nfail(ctx) == nf0 and lastopt:
                 ctx.count("c06.optimize.checks")
-                if obs["doc_count_all"] != obs["doc_count"] or obs["has_deletions"] or obs["segments"] != 1:
+                # MpWriter(multisegment=True) keeps its sub-writers' segments by design: only the single-segment
+                # outcome of the other front-ends is documented ("merge all segments into a single segment")
+                one_seg = obs["segments"] == 1 or commits[-1].get("frontend") == "mp-multi"
+                if obs["doc_count_all"] != obs["doc_count"] or obs["has_deletions"] or not one_seg:
                     ctx.fail("c06.optimize", "deleted-docs-left", w, "doc_count_all=%d doc_count=%d has_deletions=%s segments=%d" % (
                         obs["doc_count_all"], obs["doc_count"], obs["has_deletions"], obs["segments"]))
                 if remove:
